@@ -206,12 +206,14 @@ class SplitMap(FunctionMap):
 
     @functools.cached_property
     def _meta(self):
-        delimiter = " " if self.pat is None else self.pat
+        # n splits give n + 1 columns whatever the pattern is. The pattern can be
+        # a regular expression, so a sample can't be built by joining with it:
+        # split a whitespace separated sample with the default pattern
         meta = meta_nonempty(self.frame._meta)
         meta = self.frame._meta._constructor(
-            [delimiter.join(["a"] * (self.n + 1))],
+            [" ".join(["a"] * (self.n + 1))],
             index=meta.iloc[:1].index,
         )
         return make_meta(
-            getattr(meta.str, self.attr)(n=self.n, expand=self.expand, pat=self.pat)
+            getattr(meta.str, self.attr)(n=self.n, expand=self.expand, pat=None)
         )
